@@ -89,6 +89,38 @@ def Params.accepted (p : Params) : Prop :=
 
 instance (p : Params) : Decidable p.accepted := by unfold Params.accepted; exact inferInstance
 
+/-! ### the /DecodeParms dictionary of a predictor (ISO 32000-1, 7.4.4.3, Table 8)
+
+  "Predictor  integer  … Default value: 1.   Colors  integer  … Default value: 1.
+   BitsPerComponent  integer  … Default value: 8.   Columns  integer  … Default value: 1."
+  An entry whose value is the default may be left out by the writer; nothing else may.
+  (Stated here from the standard; the model's `unwrap_or` constants are not consulted.) -/
+
+def defaultPredictor : Nat := 1
+def defaultColors : Nat := 1
+def defaultBpc : Nat := 8
+def defaultColumns : Nat := 1
+
+/-- the parameters a dictionary with these (present or absent) integer entries denotes -/
+def Params.ofEntries (predictor colors columns bpc : Option Nat) : Params :=
+  ⟨predictor.getD defaultPredictor, colors.getD defaultColors, columns.getD defaultColumns, bpc.getD defaultBpc⟩
+
+/-- a legal spelling of the entry with value `v` and default `dflt`: written out, or left out
+    when (and only when) `v` is the default -/
+def Spelled (v dflt : Nat) (entry : Option Int) : Prop :=
+  entry = some (v : Int) ∨ (entry = none ∧ v = dflt)
+
+/-- executable form of the writer's choice: bit `bit` of `mask` asks to leave the entry out, which is
+    honoured only for a default-valued entry -/
+def spellEntry (mask bit v dflt : Nat) : Option Nat :=
+  if mask / 2 ^ bit % 2 = 1 ∧ v = dflt then none else some v
+
+/-- the four entries of `p` as a writer with omission choice `mask` spells them
+    (bit 0 /Predictor, 1 /Colors, 2 /Columns, 3 /BitsPerComponent) -/
+def Params.entries (p : Params) (mask : Nat) : Option Nat × Option Nat × Option Nat × Option Nat :=
+  (spellEntry mask 0 p.predictor defaultPredictor, spellEntry mask 1 p.colors defaultColors,
+   spellEntry mask 2 p.columns defaultColumns, spellEntry mask 3 p.bpc defaultBpc)
+
 /-- what an encoder writes for the rows of an image under /Predictor `p.predictor` -/
 def predict (p : Params) (rows : List Bytes) : Bytes :=
   if p.predictor = 2 then (rows.map (tiffFilterRow p.bpc p.colors)).flatten
